@@ -60,7 +60,10 @@ META = {
                   "every generated definition is also run against the implementation); the driver's canonicalisation; "
                   "numpy linspace/cos/sin vs. the model's binary64 evaluation within 1e-9; the hand models of Vec.normalized / "
                   "Vec.norm / np.linspace in Model.v; RawMeshData.prepare / "
-                  "SurfaceMesh construction keep the appended faces in order (checked by the correspondence); "
+                  "SurfaceMesh construction keep the appended faces in order (checked by the correspondence); an undirected edge "
+                  "declared twice (closed chain of 2 points: (0,1) and (1,0)) may be kept once, first declaration, or as often "
+                  "as declared - the text does not say, both are accepted by the correspondence and C14_counts speaks of the "
+                  "declared edges; "
                   "scipy ConvexHull (sphere_fibonacci) and loop subdivision (icosphere) are outside the model. "
                   "Deliberately left free: the exception class and message of a refusal (a parameter below the stated "
                   "minimum may be refused with anything; only an ANSWER to it is a violation); whether numpy scalars, "
